@@ -192,6 +192,8 @@ var linHangs int
 
 func TestVerif_Lin(t *testing.T) {
 	tr := newTracer(t)
+	// EndToEnd.tla's mechanism RouteById rests on the ids of concurrent requests being distinct: bound by a direct stress of the id draw
+	idStress(t, tr)
 	n := 240
 	if vThorough() {
 		n = 8000
